@@ -639,6 +639,18 @@ def run(ctx):
             if rc == 0 or o.decode().splitlines() != ["%s  %s" % (want, p0)] * 2:
                 ctx.fail("asconsum:unreadable:%s" % flag, "argument %s: exit %d, output %r" % (os.path.basename(bad), rc, o[:200]))
             ctx.stat("nontrivial")
+    # the number of failing operands in one call (an exit status has 8 bits): 1, 2, 255, 256, 257, 512, 1024 missing files among readable ones; the same numbers of check lists with a mismatch
+    want = subprocess.run([refsum, "h", p0], stdout=subprocess.PIPE).stdout.decode().strip()
+    badlist = os.path.join(d, "bad.list")
+    write(badlist, ("%s  %s\n" % (want[:-1] + ("0" if want[-1] != "0" else "1"), p0)).encode())
+    for nbad in (1, 2, 255, 256, 257, 512, 1024):
+        rc, o, e = tool([summ, p0] + [os.path.join(d, "missing-%d.bin" % i) for i in range(nbad)] + [p0], cwd=d)
+        if rc == 0 or o.decode().splitlines() != ["%s  %s" % (want, p0)] * 2:
+            ctx.fail("asconsum:failure-count", "%d missing operands among readable ones: exit %d, %d digest lines" % (nbad, rc, len(o.decode().splitlines())))
+        rc, o, e = tool([summ, "-c"] + [badlist] * nbad, cwd=d)
+        if rc == 0 or o.decode().count("FAILED") < nbad:
+            ctx.fail("asconsum:failure-count", "%d check lists with a mismatch: exit %d, %d FAILED lines" % (nbad, rc, o.decode().count("FAILED")))
+        ctx.stat("nontrivial", 2)
 
     # ---------------- file names and places: names with spaces, newlines, leading dashes, non-ASCII bytes, the longest component; sub-directories; outputs in missing directories; directories as input or output
     d = wd()
